@@ -138,6 +138,16 @@ class Conv:
                             continue
                         if 0 <= v <= 4096:
                             cs.add(v)
+                if t["k"] == "call":
+                    # literal arguments (`expect_len(s, 32)`): a helper may compare the length with its parameter
+                    for op in t.get("args") or []:
+                        if op.get("k") == "const" and "int" in op and op.get("ty") in ("usize", "u32", "u64", "i32", "isize", "u8"):
+                            try:
+                                v = int(op["int"])
+                            except (TypeError, ValueError):
+                                continue
+                            if 0 <= v <= 4096:
+                                cs.add(v)
                 if t["k"] == "call" and "fn" in t:
                     d = t["fn"].get("res_def") or t["fn"].get("def")
                     for x in re.findall(r"<(\d+)(?:_usize)?>", t["fn"].get("res_inst") or t["fn"].get("inst") or ""):
